@@ -11,6 +11,7 @@ type Job struct {
 	CacheSize int    `json:"cacheSize,omitempty"` // history jobs; 0 = library default
 	Steps     []Step `json:"steps"`
 	KeepOut   bool   `json:"keepOut,omitempty"` // include full output strings in the trace
+	GC        bool   `json:"gc,omitempty"`      // crash hunting only: the collector may run (order is not compared)
 }
 
 // Step kinds.
@@ -31,6 +32,7 @@ type Step struct {
 	Exposure bool   `json:"exposure,omitempty"`
 	Focus    string `json:"focus,omitempty"`
 	Stop     bool   `json:"stop,omitempty"`
+	Loud     bool   `json:"loud,omitempty"` // default logger, errors and warnings not muted (what the CLI does)
 
 	// diff
 	Dir1 string `json:"dir1,omitempty"`
